@@ -6,6 +6,8 @@ import (
 	"reflect"
 	"sort"
 	"strings"
+
+	"github.com/rkosegi/yaml-toolkit/pipeline"
 )
 
 func leafAct(name string, ops ...pOp) *pAct { return &pAct{Name: name, Ops: ops} }
@@ -187,6 +189,12 @@ func c14Call(r *rand.Rand) Case {
 	if r.Intn(2) == 0 { // rendered against the data as it is when the call starts
 		firstArgs = map[string]any{"x": []tpart{{Var: "flag"}, {Lit: "-1"}}, "n": map[string][]tpart{"f": {{Lit: "<"}, {Var: "flag"}, {Lit: ">"}}}}
 	}
+	if r.Intn(4) == 0 { // a call that passes nothing still places its own (empty) arguments and removes them afterwards
+		firstArgs = map[string]any{}
+		if !strings.Contains(readPath, ".") && r.Intn(2) == 0 {
+			data[readPath] = map[string]any{"x": "stale", "z": 1}
+		}
+	}
 	add(pOp{Kind: "call", Name: name, ArgsPath: ap, Args: firstArgs})
 	add(pOp{Kind: "log", Tmpl: []tpart{{Lit: "after call"}}})
 	if r.Intn(3) == 0 {
@@ -195,7 +203,10 @@ func c14Call(r *rand.Rand) Case {
 	c := execCase("call", root, data, strings.Contains(ap, "."))
 	if d, ok := c.Desc.(map[string]any); ok {
 		if fin, ok := d["final"].(map[string]any); ok {
-			if _, found := plookup(fin, parsePPath(readPath)); found {
+			_, staleThere := data[readPath]
+			failedRun, _ := d["failed"].(bool)
+			// (with user data placed at the arguments path beforehand, a run that fails before the call leaves it there)
+			if _, found := plookup(fin, parsePPath(readPath)); found && !(staleThere && failedRun) {
 				c.Fail = append(c.Fail, "call arguments still present at "+readPath+" after the call")
 			}
 			cfg, _ := fin["cfg"].(map[string]any)
@@ -319,6 +330,71 @@ func c14Nested(r *rand.Rand) Case {
 }
 
 // counter loops: init, (test, body, post)^n, test
+// a callable that calls another one without arguments: the inner one sees its own (empty) arguments,
+// never its caller's
+func c14CallNested(r *rand.Rand) Case {
+	data := map[string]any{"flag": "yes"}
+	ap := []string{"", "myargs"}[r.Intn(2)]
+	readPath := "args"
+	if ap != "" {
+		readPath = ap
+	}
+	inner := leafAct("inner", pOp{Kind: "log", Tmpl: []tpart{{Lit: "inner x="}, {Var: readPath + ".x"}}})
+	innerArgs := map[string]any{}
+	if r.Intn(3) == 0 {
+		innerArgs = litArgs(map[string]string{"y": "2"})
+	}
+	outer := &pAct{Name: "outer", Children: []*pAct{
+		{Name: "o1", Order: 1, Ops: []pOp{{Kind: "log", Tmpl: []tpart{{Lit: "outer x="}, {Var: readPath + ".x"}}}}},
+		{Name: "o2", Order: 2, Ops: []pOp{{Kind: "call", Name: "in", ArgsPath: ap, Args: innerArgs}}},
+		{Name: "o3", Order: 3, Ops: []pOp{{Kind: "log", Tmpl: []tpart{{Lit: "outer again x="}, {Var: readPath + ".x"}}}}},
+	}}
+	root := &pAct{Name: "r", Children: []*pAct{
+		{Name: "s0", Order: 0, Ops: []pOp{{Kind: "define", Name: "in", Body: inner}}},
+		{Name: "s1", Order: 1, Ops: []pOp{{Kind: "define", Name: "out", Body: outer}}},
+		{Name: "s2", Order: 2, Ops: []pOp{{Kind: "call", Name: "out", ArgsPath: ap, Args: litArgs(map[string]string{"x": "1"})}}},
+	}}
+	c := execCase("call-nested", root, data, true)
+	if d, ok := c.Desc.(map[string]any); ok {
+		if evs, ok := d["events"].([]string); ok {
+			for _, e := range evs {
+				if e == "L:inner x=1" {
+					c.Fail = append(c.Fail, "a callee called without x read its caller's x")
+				}
+			}
+		}
+	}
+	return c
+}
+
+// a counting loop far beyond the handful of iterations the interpreter-backed cases use: it runs
+// exactly n times and ends normally (Go side only; arithmetic is the template engine's)
+func c14LongLoop(r *rand.Rand) Case {
+	n := []int{999, 1000, 1001, 1500, 2048}[r.Intn(5)]
+	y := pipeline.ParseTextAsYaml
+	init := pipeline.ActionSpec{}
+	init.Operations.Set = &pipeline.SetOp{Data: map[string]any{"i": 0, "runs": 0}}
+	body := pipeline.ActionSpec{}
+	body.Operations.Template = &pipeline.TemplateOp{Template: "{{ add (.runs | int) 1 }}", Path: "runs", ParseAs: &y}
+	post := pipeline.ActionSpec{}
+	post.Operations.Template = &pipeline.TemplateOp{Template: "{{ add (.i | int) 1 }}", Path: "i", ParseAs: &y}
+	loop := &pipeline.LoopOp{Init: &init, Test: fmt.Sprintf("{{ lt (.i | int) %d }}", n), Action: body, PostAction: &post}
+	d := anyToContainer(map[string]any{"keep": 1})
+	var err error
+	var fail []string
+	if pn := guard(func() { err = pipeline.New(pipeline.WithData(d)).Execute(loop) }); pn != "" {
+		fail = append(fail, "panic in a long loop: "+pn)
+	}
+	if err != nil {
+		fail = append(fail, fmt.Sprintf("a loop of %d iterations failed: %v", n, err))
+	}
+	fin, _ := nodeToAny(d).(map[string]any)
+	if fmt.Sprint(fin["runs"]) != fmt.Sprint(n) || fmt.Sprint(fin["i"]) != fmt.Sprint(n) {
+		fail = append(fail, fmt.Sprintf("a loop with bound %d ran its body %v times and left the counter at %v", n, fin["runs"], fin["i"]))
+	}
+	return Case{Kind: "loop-long", Desc: map[string]any{"n": n, "runs": fin["runs"], "i": fin["i"]}, Fail: fail, Nontrivial: true, Key: fmt.Sprint("long", n)}
+}
+
 func c14Loop(r *rand.Rand) Case {
 	n := r.Intn(6)
 	data := map[string]any{"flag": "yes"}
@@ -412,8 +488,14 @@ func init() {
 				case 1:
 					return c14Nested(r)
 				}
+				if r.Intn(3) == 0 {
+					return c14CallNested(r)
+				}
 				return c14CallInLoop(r)
 			default:
+				if idx%64 == 7 {
+					return c14LongLoop(r)
+				}
 				return c14Loop(r)
 			}
 		},
